@@ -466,6 +466,26 @@ def _mid_run(case, point, path, k, steps):
         st["step"] = int(state["step"])
         if st["step"] == case["f"]:
             st["calls"] = 0
+            # the per-step records are written at the end of the update: stop points before and after each of these writes too
+            orig_append = running_state.append
+
+            def append(name, value):
+                c = st["calls"]
+                st["calls"] += 1
+                if point is not None and not st["fired"] and point == 2 * c:
+                    st["fired"] = True
+                    raise exc_obj
+                orig_append(name, value)
+                if point is not None and not st["fired"] and point == 2 * c + 1:
+                    st["fired"] = True
+                    st["after_record"] = True
+                    raise exc_obj
+
+            running_state.append = append
+            try:
+                return orig_update(state, running_state, dt_, **kw)
+            finally:
+                del running_state.append
         return orig_update(state, running_state, dt_, **kw)
 
     solver.update = update
@@ -499,7 +519,7 @@ def _mid_run(case, point, path, k, steps):
     n_points = 2 * st["calls"] if st["step"] >= case["f"] else 0
     etype = type(exc).__name__ if exc is not None else None
     injected = exc is exc_obj
-    return n_points, sol, etype, injected, st["fired"]
+    return n_points, sol, etype, injected, (st["fired"], bool(st.get("after_record")))
 
 
 def run_mid(case):
@@ -518,11 +538,11 @@ def run_mid(case):
     res.executions = 0
     for pt in range(case["chunk"], npts, MID_CHUNKS):
         path = f"mid{pt}.h5"
-        _, sol, etype, injected, fired = _mid_run(case, pt, path, k, N)
+        _, sol, etype, injected, (fired, after_record) = _mid_run(case, pt, path, k, N)
         res.executions += 1
         res.transitions += 1
         res.states.add(f"mid;scr={case['screening']};sub={SUBSTEPS[(pt // 2) % 3] if case['screening'] else pt // 2};after={pt % 2}")
-        sig = dict(fault=case["kind"], loc="inside-update", screening=case["screening"])
+        sig = dict(fault=case["kind"], loc=("inside-update-after-a-record-was-written" if after_record else "inside-update"), screening=case["screening"])
         if not fired:
             res.violate("mid-fault-did-not-fire", **sig)
             continue
